@@ -15,7 +15,7 @@ use core::ptr;
 
 pub const NTASK: usize = 2;
 pub const NENT: usize = 2;
-pub const NJOIN: usize = 4;
+pub const NJOIN: usize = 2;
 
 #[derive(Copy, Clone)]
 pub struct Entry {
